@@ -25,12 +25,30 @@ class Boom(Exception):
     pass
 
 
-def writer_body(get_ix, spec, out):
-    """spec: {"key":..., "timeout": t, "delay": d, "end": commit|cancel|raise|with_ok, "delete": key or None}"""
+def writer_body(get_ix, spec, out, sch=None):
+    """spec: {"key":..., "timeout": t, "delay": d, "end": commit|cancel|raise|with_ok|async, "delete": key or None,
+    "hold": the thread yields (free switch) while its transaction is open}"""
+    def hold(tag):
+        if spec.get("hold") and sch is not None:
+            sch.point(("user", tag), yielding=True)
+
     def body():
         from whoosh.index import LockError
         ix = get_ix()
         try:
+            if spec["end"] == "async":
+                # AsyncWriter: writes through when it gets the lock at once,
+                # else buffers the calls and replays them from its own thread
+                from whoosh import writing
+                aw = writing.AsyncWriter(ix, delay=spec["delay"])
+                out["async_direct"] = aw.writer is not None
+                aw.add_document(key=spec["key"], text=u"t " + spec["key"])
+                if spec.get("delete"):
+                    aw.delete_by_term("key", spec["delete"])
+                hold("async-open")
+                aw.commit(merge=False)
+                out["committed"] = True
+                return
             if spec["end"] == "double":
                 # the same thread asks for a second writer while it holds one:
                 # must fail with LockError, not proceed and not hang
@@ -64,6 +82,7 @@ def writer_body(get_ix, spec, out):
             w.add_document(key=spec["key"], text=u"t " + spec["key"])
             if spec.get("delete"):
                 w.delete_by_term("key", spec["delete"])
+            hold("writer-open")
             if spec["end"] == "commit":
                 w.commit(merge=False)
                 out["committed"] = True
@@ -79,8 +98,9 @@ def writer_body(get_ix, spec, out):
     return body
 
 
-def patch_whoosh(sch):
+def patch_whoosh(sch, flock_points=False):
     """Module-attribute seams; returns an undo function."""
+    import fcntl
     import whoosh.util.filelock as fl
     import whoosh.index as wi
     import whoosh.writing as ww
@@ -98,6 +118,16 @@ def patch_whoosh(sch):
     wi.time = faketime
     ww.time = vt
     fs.Lock = lambda: S.SchedThreadLock(sch)
+    if flock_points:
+        # FcntlLock.acquire() is open(lock file) + flock(fd): two system calls
+        # another process can come between; make the gap a scheduling point
+        real_flock = fcntl.flock
+        saved.append((fcntl, "flock", real_flock))
+
+        def flock(fd, mode):
+            sch.point(("flock", "LOCK_UN" if mode & fcntl.LOCK_UN else "LOCK_EX"))
+            return real_flock(fd, mode)
+        fcntl.flock = flock
 
     def undo():
         for mod, name, val in saved:
@@ -110,9 +140,17 @@ def one_run(cfg, prefix, template):
     from whoosh.filedb.filestore import RamStorage
     random.seed(cfg.get("seed", 0) * 1000 + 7)
     sch = S.Scheduler(prefix)
-    undo = patch_whoosh(sch)
+    undo = patch_whoosh(sch, cfg.get("flock_points", False))
     work = None
     outcome = {"threads": {}, "problems": []}
+    from whoosh import writing as _writing
+    saved_start = _writing.AsyncWriter.start
+    nasync = [0]
+
+    def async_start(self):
+        nasync[0] += 1
+        sch.spawn("async%d" % nasync[0], self.run)
+    _writing.AsyncWriter.start = async_start
     try:
         lockreg = {}
         mutlog = []
@@ -154,7 +192,7 @@ def one_run(cfg, prefix, template):
         ixs = [get_ix() for _ in cfg["writers"]]
         for i, spec in enumerate(cfg["writers"]):
             outs[i] = {}
-            sch.spawn(i, writer_body((lambda j=i: ixs[j]), spec, outs[i]))
+            sch.spawn(i, writer_body((lambda j=i: ixs[j]), spec, outs[i], sch))
         ok = sch.run()
         if not ok:
             if sch.deadlock:
@@ -174,6 +212,10 @@ def one_run(cfg, prefix, template):
             outcome["threads"][i] = dict(o)
             if o.get("second_writer_granted"):
                 outcome["problems"].append(("two-writers", "a second writer was granted while the first was open"))
+        for tid, t in sch.threads.items():
+            if isinstance(tid, str) and t.exc is not None:
+                outcome["problems"].append(("exc:%s:%s" % (tid.rstrip("0123456789"), type(t.exc).__name__),
+                                            "background thread %s raised %r\n%s" % (tid, t.exc, getattr(t, "tb", "")[-600:])))
         if ok:
           try:
               # end state oracle
@@ -221,6 +263,7 @@ def one_run(cfg, prefix, template):
     except Exception as e:
         outcome["problems"].append(("harness", traceback.format_exc()[-800:]))
     finally:
+        _writing.AsyncWriter.start = saved_start
         undo()
         if work:
             shutil.rmtree(work, ignore_errors=True)
@@ -325,8 +368,8 @@ def _sigdetail(kind, text):
     return ""
 
 
-def W(key, end, timeout=0.0, delay=0.1, delete=None):
-    return {"key": key, "end": end, "timeout": timeout, "delay": delay, "delete": delete}
+def W(key, end, timeout=0.0, delay=0.1, delete=None, hold=False):
+    return {"key": key, "end": end, "timeout": timeout, "delay": delay, "delete": delete, "hold": hold}
 
 
 def configs(tier):
@@ -349,6 +392,20 @@ def configs(tier):
         out.append({"name": "%s:1w:double:t0" % storage, "storage": storage, "writers": [W(u"a", "double")]})
         out.append({"name": "%s:2w:double/commit:wait" % storage, "storage": storage,
                     "writers": [W(u"a", "double", timeout=0.2), W(u"b", "commit", timeout=0.2)]})
+    # AsyncWriter front-end against a plain writer that keeps its transaction
+    # open for a while (it yields, so the AsyncWriter is created meanwhile)
+    for storage in ("file", "ram"):
+        for e1 in ("commit", "cancel"):
+            out.append({"name": "%s:2w:%s-hold/async" % (storage, e1), "storage": storage,
+                        "writers": [W(u"a", e1, hold=True), W(u"b", "async", delay=0.05, hold=True)]})
+        out.append({"name": "%s:2w:async/async+del" % storage, "storage": storage,
+                    "writers": [W(u"a", "async", delay=0.05, hold=True), W(u"b", "async", delay=0.05, delete=u"init", hold=True)]})
+    # the lock file protocol itself: open(2) and flock(2) are separate steps
+    out.append({"name": "file:3w:commit/commit/commit:hold:flock-steps", "storage": "file", "flock_points": True,
+                "writers": [W(u"a", "commit", hold=True), W(u"b", "commit", hold=True), W(u"c", "commit", hold=True)]})
+    out.append({"name": "file:3w:cancel/commit/commit:hold:wait:flock-steps", "storage": "file", "flock_points": True,
+                "writers": [W(u"a", "cancel", hold=True), W(u"b", "commit", hold=True, timeout=0.15),
+                            W(u"c", "commit", hold=True)]})
     # three writers
     for storage in ("file", "ram"):
         out.append({"name": "%s:3w:commit/commit/commit:t0" % storage, "storage": storage,
@@ -379,7 +436,7 @@ def run(ctx):
         tasks.append((cfg, bound, cap, ctx.seed))
     ctx.extra["configs"] = len(tasks)
     ctx.rule = ("for each configuration (2-3 writer threads x endings {commit, cancel, exception in with-block, "
-                "with-block ok} x {no timeout, polling timeout} x {FileStorage+flock, RamStorage}): every schedule "
+                "with-block ok, AsyncWriter (direct or buffering + its replay thread) against a writer that keeps its transaction open} x {no timeout, polling timeout} x {FileStorage+flock, RamStorage}): every schedule "
                 "with at most B preemptions (B=2 for two writers, 1 for three; thorough 3/2) at storage-call, "
                 "lock and polling-sleep granularity is executed on the real code; states = distinct (per-thread "
                 "progress, directory image signature) pairs seen at scheduling decisions, summed over "
